@@ -432,8 +432,11 @@ func main() {
 			if err != nil {
 				panic(err)
 			}
-			for i := 0; i < 8; i++ {
-				k := lib.JoinLenPrefix([]byte{1}, []byte(fmt.Sprintf("a-%03d", r.Intn(70))))
+			for i := 0; i < 70; i++ {
+				// every candidate key at every version (the keys that were deleted at some height in particular); the costly
+				// re-framed proofs for a sample of them
+				k := lib.JoinLenPrefix([]byte{1}, []byte(fmt.Sprintf("a-%03d", i)))
+				reframe := i%9 == 0
 				val, present := vv.present[string(k)]
 				var ok bool
 				var e2 lib.ErrorI
@@ -457,7 +460,7 @@ func main() {
 				// re-framed proofs: the hash pre-image of a parent is leftKey|leftValue|rightKey|rightValue; moving the boundary between
 				// the key and the value of a proof node leaves every hash unchanged. For a PRESENT key no such re-framing may turn the
 				// honest membership proof into an accepted proof of non-membership (nor, for an absent key, into one of membership).
-				if ok && e2 == nil {
+				if ok && e2 == nil && reframe {
 					func() {
 						defer func() { _ = recover() }()
 						proof, e := ro.(*store.Store).GetProof(k)
